@@ -6,7 +6,7 @@ from ..common import BookCase, book_obs, sig, run_apps, app
 
 THEOREMS = ['depth_exact', 'outcome_order_independent', 'only_depth_error', 'chain_shorter', 'chain_le', 'chain_of_reach', 'cyclic_fails', 'shallow_succeeds']
 LEVEL = 'proof'
-RULE = ('chains of every length N-2..N+2, cycles of length 1..4 reached through shallow and deep paths, DAGs with sharing, '
+RULE = ('chains of every length N-2..N+2, chains that end in a recipe without ingredients (alone or shared by two recipes), cycles of length 1..4 reached through shallow and deep paths, DAGs with sharing, '
         'N in 1..12; through the CLI every command that resolves the book (register, balance in its display modes, the reports, summary, csv database-resolved) with the limit from --maxdepth / HR_MAXDEPTH; both entry points repeated (runtime map order) and explicit visiting orders (all permutations for <= 4 recipes); '
         'non-trivial = longest chain within 2 of N, or cyclic; distinct by (book, N)')
 ASSUMPTIONS = ["Go's map iteration order is sampled by repetition; explicit orders go through the resolver hook"]
@@ -28,7 +28,20 @@ def gen_cases(g, count, reps):
     for _ in range(count):
         n = r.randint(1, 12)
         kind = r.random()
-        if kind < 0.5:
+        if kind < 0.12:
+            # the chain ends in a recipe without ingredients (a bare heading): it is a recipe of height 0, like an undefined name;
+            # sometimes two recipes share it (a diamond)
+            length = max(1, n + r.choice([-2, -1, -1, -1, 0, 1]))
+            book = g.chain_book(length, exact=True)
+            tail = (g.word(3, 6, 0) + '/empty').encode()
+            book = [(nm, [((tail if i == b'calories' else i), q) for i, q in ings]) for nm, ings in book] + [(tail, [])]
+            if r.random() < 0.5 and len(book) >= 2:
+                top, ings = book[0]
+                side = (g.word(3, 6, 0) + '/side').encode()
+                book = [(top, ings + [(side, ings[0][1])])] + book[1:] + [(side, [(tail, ings[0][1])])]
+            r.shuffle(book)
+            meta = {'kind': 'chain-empty-tail', 'len': length}
+        elif kind < 0.5:
             length = max(0, n + r.choice([-2, -1, -1, 0, 0, 1, 2]))
             book = g.chain_book(length, exact=True)
             meta = {'kind': 'chain', 'len': length}
